@@ -75,6 +75,12 @@ func (o fsOp) token() string {
 		return fmt.Sprintf("%s,%s", o.K, hx(o.P))
 	case "close", "hstat":
 		return fmt.Sprintf("%s,%d", o.K, o.H)
+	case "hl":
+		var hs []string
+		for _, n := range strings.Split(o.D, ",") {
+			hs = append(hs, hx(n))
+		}
+		return "hl," + strings.Join(hs, "+")
 	case "read":
 		return fmt.Sprintf("read,%d,%d", o.H, o.N)
 	case "readat":
@@ -579,6 +585,9 @@ func (fsSuite) Run(raw json.RawMessage) []Step {
 	if c.Kind == "path" {
 		return runPathCase(c)
 	}
+	if c.Backend == "dirfs" && c.Kind == "dirfs-hl" {
+		return runDirfsHLCase(c)
+	}
 	if c.Backend == "dirfs" {
 		return runDirfsCase(c)
 	}
@@ -930,6 +939,9 @@ func (fsSuite) Gen(r *Rng, i int, tier string) any {
 	}
 	if i%10 == 7 {
 		return genDirfsCase(r)
+	}
+	if i%20 == 12 {
+		return genDirfsHLCase(r)
 	}
 	if i%10 == 3 {
 		c := genFsPkgCase(r)
